@@ -432,8 +432,29 @@ func c16Shape(x *X) {
 	for i := 0; i < k && sched != rpc.RandomScheduling; i++ {
 		clientCall(s.c, cfCall)
 	}
+	failed := ""
+	if down < 0 && x.Choose(2) == 1 && sched != rpc.RandomScheduling {
+		// a live target starts refusing connections and calls are made until one has failed on it; Update follows at
+		// once, before the next probe round (the target is flagged dead and still on the routing list)
+		failed = init[len(init)-1]
+		s.rt.up[failed] = false
+		for i := 0; i < 2*len(init)+2; i++ {
+			from := len(s.rt.routed)
+			clientCall(s.c, cfCall)
+			hit := false
+			for _, r := range s.rt.userRoutes(from) {
+				hit = hit || r.addr == failed
+			}
+			if hit {
+				break
+			}
+		}
+	}
 	s.c.Update(shape...)
 	cur := dedup(shape)
+	if failed != "" {
+		s.rt.up[failed] = true
+	}
 	if down >= 0 {
 		// the target that was down comes back after the Update: it is used again only if the new list has it
 		s.rt.up[init[down]] = true
@@ -481,7 +502,7 @@ func c16Shape(x *X) {
 			break
 		}
 	}
-	x.Outcome("sched=%d init=%v shape=%q k=%d down=%d routes=%d", sched, init, shape, k, down, len(s.rt.routed)-from)
+	x.Outcome("sched=%d init=%v shape=%q k=%d down=%d failed=%q routes=%d", sched, init, shape, k, down, failed, len(s.rt.routed)-from)
 	s.close()
 }
 
